@@ -138,6 +138,11 @@ def lattice_all(tier, with_f=True):
   for alpha, real in itertools.product((None, F(2), "auto", "auto_po2"),
                                        (True, False)):
     yield "stochastic_ternary", dict(alpha=alpha, use_real_sigmoid=real)
+  # non-default refinement depth / threshold of the ternary family
+  yield "stochastic_ternary", dict(alpha="auto", number_of_unrolls=2)
+  yield "stochastic_ternary", dict(alpha="auto_po2", number_of_unrolls=3)
+  yield "stochastic_ternary", dict(alpha=None, threshold=F(1, 2))
+  yield "ternary", dict(alpha="auto", number_of_unrolls=2)
   for alpha, real in itertools.product((None, F(2), "auto", "auto_po2"),
                                        (True, False)):
     yield "bernoulli", dict(alpha=alpha, use_real_sigmoid=real)
